@@ -88,5 +88,30 @@ let () = iter_lines (fun line ->
          | Some (v, s), Some (_, k) -> if int_of_z k.K_quote_doit.v__oob <> 0 then "OOB" else
              bigz v ^ " " ^ bigz s.C_quote_doit.v_saout__len ^ " " ^ hexz (take (int_of_z s.C_quote_doit.v_saout__len) s.C_quote_doit.a_saout__s)
          | _ -> "STUCK")
+    | ["rep"; c; e; h] | ["lrep"; c; e; h] ->
+        (* report() of qmail-rspawn.c / qmail-lspawn.c as generated, on the harness's arguments (a NUL sentinel after the output);
+           "OOB" appended when the checked variant saw an access outside output + sentinel *)
+        let out = zl h in let n = z_of_int (List.length out) in
+        let wstat = if int_of_string c <> 0 then z_of_int 11 else z_of_int (int_of_string e * 256) in
+        if List.hd (split_ws line) = "rep" then
+          (match C_rreport.run f [] wstat (out @ [Z0]) (z_of_int 0) n, K_rreport.run f [] wstat (out @ [Z0]) (z_of_int 0) n with
+           | Some (_, s), Some (_, k) -> hexz s.C_rreport.a_ss__out ^ (if int_of_z k.K_rreport.v__oob <> 0 then " OOB" else "")
+           | _ -> "STUCK")
+        else
+          (match C_lreport.run f [] wstat (out @ [Z0]) (z_of_int 0) n, K_lreport.run f [] wstat (out @ [Z0]) (z_of_int 0) n with
+           | Some (_, s), Some (_, k) -> hexz s.C_lreport.a_ss__out ^ (if int_of_z k.K_lreport.v__oob <> 0 then " OOB" else "")
+           | _ -> "STUCK")
+    | ["safeput"; h] ->
+        (match C_safeput.run f [] (zstr h) (z_of_int 0), K_safeput.run f [] (zstr h) (z_of_int 0) with
+         | Some (_, s), Some (_, k) -> if int_of_z k.K_safeput.v__oob <> 0 then "OOB" else hexz s.C_safeput.a_qqt__out
+         | _ -> "STUCK")
+    | ["fmtqfn"; d; id; flag; split] ->
+        let buf = List.init 300 (fun _ -> z_of_int 0x2e) in
+        let fl = z_of_int (int_of_string flag) and sp = z_of_int (int_of_string split) in
+        (match C_fmtqfn.run f [] (z_of_int (-1)) (zstr d) (z_of_int 0) (zbig id) fl sp, C_fmtqfn.run f buf (z_of_int 0) (zstr d) (z_of_int 0) (zbig id) fl sp,
+               K_fmtqfn.run f buf (z_of_int 0) (zstr d) (z_of_int 0) (zbig id) fl sp with
+         | Some (r0, _), Some (r, s), Some (_, k) -> if int_of_z k.K_fmtqfn.v__oob <> 0 then "OOB" else
+             bigz r0 ^ " " ^ bigz r ^ " " ^ split ^ " " ^ hexz (take (int_of_z r) s.C_fmtqfn.a_s)
+         | _ -> "STUCK")
     | _ -> "?" in
   print_string out; print_char '\n')
